@@ -66,7 +66,8 @@ struct Beh {
 	int K;
 	int sub;             // BUILTIN: every later coin of the Sign (2 = PRF)
 	int pos, variant;    // TAMPER_*: position, 0: value+1, 1: value := q ; SILENT: pos = first dropped own broadcast (0 = all)
-	Beh() : kind(HONEST), in_keygen(false), kg_coin(0), top(0), K(0), sub(0), pos(0), variant(0) {}
+	bool kgphase;        // TAMPER_*: the position counts the messages of Generate instead of those of every Sign
+	Beh() : kind(HONEST), in_keygen(false), kg_coin(0), top(0), K(0), sub(0), pos(0), variant(0), kgphase(false) {}
 	std::string kname() const
 	{
 		static const char *nm[] = { "honest", "builtin", "silent", "tamper-bcast", "tamper-ucast", "outcast" };
@@ -81,7 +82,7 @@ struct Beh {
 			o << ".top=" << std::hex << top << std::dec << "/" << K << ".sub=" << sub;
 			if (in_keygen) o << ".kg=" << kg_coin;
 		}
-		if (kind == TAMPER_B || kind == TAMPER_U) o << ".pos=" << pos << ".v=" << variant;
+		if (kind == TAMPER_B || kind == TAMPER_U) o << (kgphase ? ".generate" : "") << ".pos=" << pos << ".v=" << variant;
 		if (kind == SILENT && pos) o << ".from=" << pos;
 		return o.str();
 	}
@@ -125,6 +126,7 @@ struct World {
 	std::vector<Party> P;
 	bool livelock, misaligned;
 	std::vector<unsigned> nb, nu;    // per party: own broadcasts / private messages sent during the first Sign
+	std::vector<unsigned> nbk, nuk;  // ... during Generate
 	uint64_t handoffs, ticks, sent;
 	double secs;
 	World() : livelock(false), misaligned(false), handoffs(0), ticks(0), sent(0), secs(0) {}
@@ -246,7 +248,7 @@ inline World run_world(const Cfg &C, uint64_t seed, bool want_log = false)
 	const Grp &G = *C.G;
 	const time_t to = aiounicast::aio_timeout_very_short;   // virtual seconds; messages between live parties take 0
 	World W;
-	W.P.resize(N), W.nb.assign(N, 0), W.nu.assign(N, 0);
+	W.P.resize(N), W.nb.assign(N, 0), W.nu.assign(N, 0), W.nbk.assign(N, 0), W.nuk.assign(N, 0);
 	double t0 = drv::now();
 	mcenv::set_clock(1700000000);
 	sched::Sched S(N);
@@ -275,12 +277,14 @@ inline World run_world(const Cfg &C, uint64_t seed, bool want_log = false)
 		bool own_rsend = is_bcast && m.is_array && m.v.size() == 5 && m.v[3] == "1" && m.v[1] == drv::str(from);
 		bool fl = C.faulty(party);
 		int ordb = -1, ordu = -1;
-		if (in_sign(party))
+		if (in_sign(party) || phase[party] == 0)
 		{
 			if (own_rsend) ordb = cntb[party]++ / (int)nn;
 			if (!is_bcast && !m.is_array) ordu = cntu[party]++;
 			if (phase[party] == 1) { if (own_rsend) W.nb[party] = cntb[party] / nn; if (ordu >= 0) W.nu[party] = cntu[party]; }
+			if (phase[party] == 0) { if (own_rsend) W.nbk[party] = cntb[party] / nn; if (ordu >= 0) W.nuk[party] = cntu[party]; }
 		}
+		const bool tphase = C.beh.kgphase ? phase[party] == 0 : in_sign(party);
 		if (!fl)
 			return true;
 		switch (C.beh.kind)
@@ -293,10 +297,10 @@ inline World run_world(const Cfg &C, uint64_t seed, bool want_log = false)
 				if (ordb >= C.beh.pos) muted[party] = 1;
 				return !muted[party];
 			case TAMPER_B:
-				if (ordb == C.beh.pos) tamper_value(m.v[4], C.beh.variant, G);
+				if (tphase && ordb == C.beh.pos) tamper_value(m.v[4], C.beh.variant, G);
 				return true;
 			case TAMPER_U:
-				if (ordu == C.beh.pos) tamper_value(m.v[0], C.beh.variant, G);
+				if (tphase && ordu == C.beh.pos) tamper_value(m.v[0], C.beh.variant, G);
 				return true;
 			default:
 				return true;
